@@ -619,6 +619,12 @@ Definition step_utf16 (swapped : bool) (s : list N) : dres :=
   | b0 :: b1 :: _ => DOut [if swapped then b1 + 256 * b0 else b0 + 256 * b1] 2
   | _ => DNeed
   end.
+Definition step_ucs4 (swapped : bool) (s : list N) : dres :=
+  match u4_step swapped s 2 with
+  | SOut u n => DOut u n
+  | SErr e => DErr e
+  | _ => DNeed
+  end.
 (** UTF-8: one iteration of the transcoder's loop with unlimited room *)
 Definition step_utf8 (s : list N) : dres :=
   match x8_step s 2 0 with
